@@ -18,6 +18,7 @@ type c02Config struct {
 	selectors []Expr
 	allArrays bool
 	desc      string
+	usesNx    bool
 }
 
 func jsonBytes(v any) []byte {
@@ -193,6 +194,14 @@ func c02Random(rng *rand.Rand) (*c02Config, string, bool) {
 				}
 			case 5:
 				r.Pattern = Bin("&&", &IsExpr{X: V("$"), T: "number"}, Bin(">", V("$"), N(strconv.Itoa(rng.IntN(4)))))
+			case 6:
+				// next executed while the pattern is evaluated
+				if rng.IntN(2) == 0 {
+					r.Pattern = CallE(V("nx"), V("$"))
+				} else {
+					r.Pattern = &MatchExpr{Subj: V("$"), Cases: []*MatchCase{{Pats: []Expr{N("2")}, Block: Blk(&Next{})}, {Pats: []Expr{V("pv")}, Body: N("1")}}}
+				}
+				cfg.usesNx = true
 			}
 			if rng.IntN(4) == 0 && action == "" && r.Pattern != nil {
 				// rule without a body prints $
@@ -212,6 +221,9 @@ func c02Random(rng *rand.Rand) (*c02Config, string, bool) {
 
 func (cfg *c02Config) program() *Program {
 	p := &Program{}
+	if cfg.usesNx {
+		p.Items = append(p.Items, &Func{Name: "nx", Params: []string{"v"}, Body: Blk(&If{C: Bin("==", V("v"), N("2")), Then: Blk(&Next{})}, &Return{X: N("1")})})
+	}
 	for _, r := range cfg.rules {
 		p.Items = append(p.Items, r)
 	}
@@ -222,7 +234,7 @@ func c02Cases(tier string) int {
 	if tier == "thorough" {
 		return c02EnumCount + 600000
 	}
-	return c02EnumCount + 20000
+	return c02EnumCount + 100000
 }
 
 func c02Run(c *Case) {
